@@ -288,6 +288,8 @@ def run_case(case, rec, mon=None):
                 # the last length with k frames and the first with k + 1 (with sparse frames, fs > fl, the tail may hold
                 # room for a frame that is not due)
                 Ns = sorted(set(Ns) | {max(0, k * fs + fs - fs // 2 - 1 + j) for k in (2, 3) for j in (-2, 0, 1)} | {3 * fs - 1, 3 * fs})
+                # long enough for a frame (>= fl // 2 + 1) yet rounding to no frame at all (sparse frames: fs > 2 N)
+                Ns = sorted(set(Ns) | {fl // 2 + 1, max(fl // 2 + 1, fs - fs // 2 - 1)})
                 for N in Ns:
                     x = gen.signal(rng, N, None, np.float32 if (prec == "f32" and rng.random() < 0.5) else np.float64)
                     with torch.no_grad():
@@ -433,6 +435,13 @@ def plan(tier, seed):
     cases = []
     for i in range(400 if q else 8000):
         cases.append({"kind": "stft", "idx": i, "seed": seed, "cfg": make_cfg(seed, 300000 + i)})
+    for i in range(6 if q else 40):
+        # directed: sparse frames (a shift of two to four frame lengths), with and without the energy coefficient
+        rng = rng_for(seed, "C14", 500000 + i, 0)
+        fl = int(rng.choice([4, 7, 8, 16, 25]))
+        cfg = gen.stft_cfg(rng, fl=fl, fs=int(fl * rng.choice([2, 3, 4]) + rng.integers(0, 3)))
+        cfg["include_energy"] = bool(i % 2 == 0)
+        cases.append({"kind": "stft", "idx": 500000 + i, "seed": seed, "cfg": cfg})
     for i in range(3 if q else 30):
         cases.append({"kind": "script", "idx": i, "seed": seed, "cfg": make_cfg(seed, 400000 + i)})
     for i in range(8 if q else 80):
